@@ -215,6 +215,10 @@ class MemListener:
             s.point("accept")
         if self.closed:
             raise OSError(errno.EBADF, "Bad file descriptor (mem listener)")
+        if self.net.accept_faults > 0 and self.queue:
+            # environment fault: the process is out of descriptors for a while (accept fails, the pending connection stays queued)
+            self.net.accept_faults -= 1
+            raise OSError(errno.EMFILE, "Too many open files (mem)")
         if not self.queue:
             if s is None:
                 raise socket.timeout("accept timed out (mem)")
@@ -370,6 +374,7 @@ class MemNet:
         self.listeners = {}
         self._fd = 1000
         self._kfds = set()
+        self.accept_faults = 0     # the next N accept() calls with a connection pending fail with EMFILE
         self._port = 50000
         self._cport = 40000
         self.sockets = []
